@@ -452,10 +452,14 @@ def sanitize(s):
 
 
 def write_evidence(prop, tier, seed, level, coverage, assumptions, wall, nviol):
-    os.makedirs(os.path.join(VERIF, "evidence"), exist_ok=True)
+    # scratch runs against another tree (VERIF_REPO / VERIF_BUILD_ROOT: mutation and seeded-change experiments) must
+    # not overwrite the evidence of the real tree
+    scratch = bool(os.environ.get("VERIF_REPO") or os.environ.get("VERIF_BUILD_ROOT"))
+    evdir = os.path.join(build.BUILD_ROOT, "evidence") if scratch else os.path.join(VERIF, "evidence")
+    os.makedirs(evdir, exist_ok=True)
     ev = dict(property_id=prop, tier=tier, seed=seed, level=level, coverage=coverage, assumptions=assumptions,
               wall_s=round(wall, 2), violations=nviol)
-    path = os.path.join(VERIF, "evidence", prop + ".json")
+    path = os.path.join(evdir, prop + ".json")
     tmp = path + ".tmp"
     with open(tmp, "w") as f:
         json.dump(ev, f, indent=1, sort_keys=False)
@@ -529,14 +533,15 @@ def run_property(prop, cfg, tier, seed, only_stage=None, post=None):
         by_key.setdefault(o.key, []).append(o)
     violations = []
     known_hits = []
-    os.makedirs(os.path.join(VERIF, "replays"), exist_ok=True)
+    replay_dir = os.path.join(build.BUILD_ROOT, "replays") if (os.environ.get("VERIF_REPO") or os.environ.get("VERIF_BUILD_ROOT")) else os.path.join(VERIF, "replays")
+    os.makedirs(replay_dir, exist_ok=True)
     for key, lst in sorted(by_key.items()):
         o = lst[0]
         kf = match_known(known, prop, key)
         if kf:
             known_hits.append((key, kf, len(lst)))
             continue
-        rp = os.path.join(VERIF, "replays", "%s-%s.json" % (prop, sanitize(key)))
+        rp = os.path.join(replay_dir, "%s-%s.json" % (prop, sanitize(key)))
         st = o.stage
         with open(rp, "w") as f:
             json.dump(dict(property=prop, key=key, what=o.what, occurrences=len(lst), tier=tier, seed=seed,
